@@ -8,6 +8,7 @@ from billiard.exceptions import (RestartFreqExceeded, Terminated, TimeLimitExcee
                                  WorkerLostError)
 
 from . import fakeworld as fw
+from lib.cothread import Co
 
 import logging
 import billiard.util as _bu
@@ -58,8 +59,16 @@ class PoolAdapter:
         self.wk = {p: {'pc': 'idle', 'j': 0, 'nd': 0} for p in self.world.procs}
         self.outmeta = []
         self.raised = False
+        self.scan = None          # FineScan: the scan in progress (helper thread + its snapshot)
 
     def close(self):
+        if self.scan is not None:
+            try:
+                self.scan['co'].destroy()
+            except Exception:
+                pass
+            bp.copy = self.scan['real_copy']
+            self.scan = None
         try:
             self.pool._terminate.cancel()
         except Exception:
@@ -205,11 +214,60 @@ class PoolAdapter:
             W.lingers = set(act['lingers'])
             pool._timeout_handler.handle_event()
             W.lingers = set()
+        elif n == 'ScanBegin':
+            self._scan_begin()
+        elif n == 'ScanVisit':
+            sc = self.scan
+            if sc is None or not sc['left']:
+                raise AssertionError('no scan visit pending')
+            W.lingers = {self.handles[act['j'] - 1]._worker_pid} if act['linger'] else set()
+            if sc['left'][0] != self.handles[act['j'] - 1]._job:
+                raise AssertionError('scan visits jobs in a different order than the specification')
+            sc['co'].resume()
+            W.lingers = set()
+            if sc['co'].crash is not None:
+                raise sc['co'].crash
+            if sc['co'].finished:
+                bp.copy = sc['real_copy']
+                self.scan = None
         elif n == 'Tick':
             W.t += 1
         else:
             raise ValueError(n)
         return ret
+
+    def _scan_begin(self):
+        """run one handle_event() of the time-limit scanner on a helper thread that parks
+        before each job of its snapshot (the copy of the cache) is visited"""
+        ad = self
+        real_copy = bp.copy
+        sc = {'left': [], 'real_copy': real_copy}
+
+        class VisitDict(dict):
+            def items(self_d):
+                keys = list(dict.keys(self_d))
+                sc['left'] = list(keys)
+                for k in keys:
+                    sc['co'].yield_('visit')
+                    sc['left'].pop(0)
+                    yield k, dict.__getitem__(self_d, k)
+
+        class CopyShim:
+            def copy(self_c, x):
+                return VisitDict(x)
+
+            def __getattr__(self_c, nme):
+                return getattr(real_copy, nme)
+        bp.copy = CopyShim()
+        th = self.pool._timeout_handler
+        sc['co'] = Co(th.handle_event, name='scan')
+        self.scan = sc
+        sc['co'].start()
+        if sc['co'].crash is not None:
+            raise sc['co'].crash
+        if sc['co'].finished:
+            bp.copy = real_copy
+            self.scan = None
 
     # ------------------------------------------------------------- projection
     def _job(self, j, h, c):
@@ -280,7 +338,10 @@ class PoolAdapter:
             ex = [] if p._exit is None else [p._exit]
             wl.append({'pc': 'exited' if ex else k['pc'], 'j': k['j'] if not ex or True else 0,
                        'nd': k['nd'], 'ex': ex, 'term': bool(p.term_requested)})
+        ids_rev = {h._job: k + 1 for k, h in enumerate(self.handles)}
         st = {
+            'scanning': self.scan is not None,
+            'snap': [ids_rev.get(k, -1) for k in self.scan['left']] if self.scan else [],
             'pstate': {bp.RUN: 'RUN', bp.CLOSE: 'CLOSE', bp.TERMINATE: 'TERMINATE'}[pool._state],
             'nsub': len(self.handles),
             'job': [self._job(k + 1, h, c) for k, (h, c) in enumerate(zip(self.handles, self.cnt))],
